@@ -213,8 +213,9 @@ def __init__(self, num_antennas, sample_rate=3*u.GHz, fch1=0*u.GHz, ascending=Tr
                         ctx.spec(gs, 'self.max_delay', I=ctx.interp(expand=False)) - d, node=e.node, construct=e.text()[:80] + ' [offset]')
     caches = [e for e in I.events if e.kind == 'store' and e.data.get('target') == 'sub' and 'bg_cache' in ast.unparse(e.data['base_node'])]
     ctx.require(len(caches) >= 1, 'get_samples: the background cache update was not found')
+    from .common import value_where_reached
     for e in caches:
-        lo, hi = slice_len(e.data['value'])
+        lo, hi = slice_len(value_where_reached(e))
         ok = lo is not None and T._isnone(hi)
         ctx.ob('AGREE', 'the cache keeps the tail of the background from (length - delay_i) on, i.e. the last delay_i samples', gs, ok,
                {'value': pretty(e.data['value'])[:160]}, node=e.node, construct=e.text()[:80] + ' [tail]')
